@@ -630,8 +630,17 @@ pub fn check_slot<F: Family>(s: &Slot<F>, env: &Env<F>, counts: bool, op: &Op, g
     // ... never change it, not even while the borrow is in use)
     if counts {
         let c0 = sim::peek(a.ptr);
+        sim::op_begin();
         let _ = s.h.view(false, true);
+        let acc = sim::op_end();
         let c1 = sim::peek(a.ptr);
+        if acc.rmws != 0 {
+            // a transient increment is invisible afterwards but not to another thread meanwhile
+            triomphe_verif_rt::count_violation(
+                "count-touched",
+                format!("{}: reading the handle's pointer and count accessors performed {} read-modify-write(s) on a reference count (a transient owner)", what(), acc.rmws),
+            );
+        }
         if c0 != c1 {
             triomphe_verif_rt::count_violation(
                 "count-touched",
